@@ -50,24 +50,24 @@ pub open spec fn nz(v: u64) -> Option<NonZeroU64> {
 
 impl ObjectHeader {
     #[verifier::external_body]
-    pub fn read(storage: &Storage, start: u64) -> (r: Result<ObjectHeader, ArchiveError>)
+    fn read(storage: &Storage, start: u64) -> (r: Result<ObjectHeader, ArchiveError>)
         ensures r matches Ok(h) ==> h == hdr(*storage, start),
     { unimplemented!() }
 
     #[verifier::external_body]
-    pub fn update_next(start: u64, new_next: Option<NonZeroU64>, storage: &mut Storage) -> (r: Result<(), ArchiveError>)
+    fn update_next(start: u64, new_next: Option<NonZeroU64>, storage: &mut Storage) -> (r: Result<(), ArchiveError>)
         ensures true,
     { unimplemented!() }
 }
 
 impl<Meta> Archive<Meta> {
     #[verifier::external_body]
-    pub fn get_empty_index(&self) -> (r: Result<Option<NonZeroU64>, ArchiveError>)
+    fn get_empty_index(&self) -> (r: Result<Option<NonZeroU64>, ArchiveError>)
         ensures r matches Ok(p) ==> p == nz(empty_slot(self.file)),
     { unimplemented!() }
 
     #[verifier::external_body]
-    pub fn set_empty_index(&mut self, pos: Option<NonZeroU64>) -> (r: Result<(), ArchiveError>)
+    fn set_empty_index(&mut self, pos: Option<NonZeroU64>) -> (r: Result<(), ArchiveError>)
         ensures true,
     { unimplemented!() }
 }
